@@ -2276,6 +2276,32 @@ def rule_dragonbox_left_endpoint(col, facts):
             continue                       # the y (centre) test is a different rule of the algorithm
         n += 1
         ok = any(strip_casts(e)[0] == "call" and last_seg(strip_casts(e)[1]) == "include_left_endpoint" and p is True for _d, e, p in path_conditions(f, bb))
+        if not ok:
+            # the call itself may be unconditional (`x_parity || (closed && x_is_integer)`): what matters is that the
+            # integer flag is a *reason to accept* only on paths where the interval was found closed on the left
+            from rules.core import enum_paths, bool_resolved_atoms
+            from rules.pipeline import reach_from
+            acc = {b2 for b2, c2, a2, d2, t2 in f.calls() if last_seg(callee_name(c2)) == "process_trailing_zeros" and b2 in reach_from(f, bb)}
+            if acc:
+                first_acc = {min(acc)}
+                ok = True
+                seen = 0
+                for _t, atoms0, env in enum_paths(f, bb, first_acc, want_env=True):
+                    atoms, feasible = bool_resolved_atoms(f, atoms0, env)
+                    if not feasible:
+                        continue
+                    seen += 1
+                    def _is_int_flag(e):
+                        e = strip_casts(e)
+                        if e[0] != "proj" or list(e[2]) != [1]:
+                            return False
+                        inner = strip_casts(e[1])
+                        return (inner[0] == "var" and inner[1] == dest) or (inner[0] == "call" and last_seg(inner[1]) == "compute_mul_parity" and "Sub 1" in show(inner[2][0]))
+                    by_int = any(p is True and _is_int_flag(e) for e, p in atoms)
+                    closed = any(p is True and strip_casts(e)[0] == "call" and last_seg(strip_casts(e)[1]) == "include_left_endpoint" for e, p in atoms)
+                    if by_int and not closed:
+                        ok = False
+                ok = ok and seen > 0
         col.check(R, "compute_nearest_normal:integer-endpoint-needs-closed-interval", ok,
                   "the integer test of the left endpoint (2f - 1) is used on a path where include_left_endpoint() was not found true: an open interval would accept its own boundary", f.loc(f.blocks[bb]["ts"]))
     col.floor(R, "left-endpoint integer tests", n, 1)
@@ -2890,7 +2916,7 @@ def rule_grisu_mul_rounds(col, facts):
                         v = fold(f, side)
                     except Exception:
                         v = None
-                    if v == 1 << 31:
+                    if v in (1 << 31, 1 << 63):        # schoolbook 32-bit limbs, or the u128 product: `(p + 2^63) >> 64`
                         ok = True
     col.check(R, "compact::mul:round-half-up", ok,
               "the middle partial sum is shifted out without adding 2^31 first: the product is truncated, not rounded, which Grisu's boundary margin does not allow for", f.loc())
